@@ -55,7 +55,10 @@ ENTRY = dict(
           "taskDefinition retries) -> xor(r1==1 -> A | u==7 -> B | default C) -> end on the real engine, one process per "
           "case: ok answers with declared/undeclared results and data objects, error with no handler / skip / exit / "
           "unknown mode, retry n in -1..3 x 0..4 failures then success, retries then skip/exit/none, changing n, retry on "
-          "a later task of the same token, error answers carrying results; judged by the engine model in lock-step "
+          "a later task of the same token, error answers carrying results, double answers; plus two shapes with the "
+          "conditional flows directly ON the task (x==1 -> A | x!=1 -> B on the declared result x it has just stored; "
+          "self-loop T --[x<3]--> T counted by x, also with retry/skip answers in between): which activity is requested "
+          "next and how often T is requested; judged by the engine model in lock-step "
           "(requests, completions, errors, final variables), by the token model (request counts), and by retry bound, "
           "error-trace-first, data-output filter and what the later task read. non-trivial: tt k>=2 or an event; filter "
           "both lists non-empty; retry >= 1 step; eng >= 2 answers"),
